@@ -8,14 +8,14 @@ disk state, with a fault after any step; and of `n` writers to one key under any
 The steps mirror the code (current tree, i.e. after 3229285 — checksums are compared *before* `done()` —,
 b01fec8 — a put without metadata removes the previous object's metadata file —, 0096ef4 —
 `complete_multipart_upload` validates first, assembles and renames, and only then moves the metadata, removes the part
-files and the upload record — and 2ee4116 — the temporary file is created by a plain `std::fs::File::create` in the same
+files and the upload record — and 156124b — the temporary file is created by a plain `std::fs::File::create` in the same
 poll in which the `FileWriter` is constructed):
 
 | step        | code                                                                                   |
 |-------------|----------------------------------------------------------------------------------------|
 | `probe p`   | `complete_multipart_upload`, validation loop: `fs::metadata(part file)` — missing → `InvalidPart`; nothing is changed |
 | `sizes ok`  | `complete_multipart_upload`: the size rule over the listed parts (`EntityTooSmall`); nothing is changed   |
-| `create`    | `prepare_file_write` (2ee4116: no longer `async`): `tmp_file_counter.fetch_add(1)`, `std::fs::File::create(tmp)`, `FileWriter { clean_tmp: true }` constructed — no `await` in between, hence no point at which the request future can be dropped: the file never exists without the guard whose `Drop` removes it. (Before, `tokio::fs::File::create(tmp).await` ran on the blocking pool and the `FileWriter` was constructed only after the await returned — a separate step `adopt`; a future dropped in between left the file: `tmp-leftover:drop-at-create`.) |
+| `create`    | `prepare_file_write` (156124b: no longer `async`): `tmp_file_counter.fetch_add(1)`, `std::fs::File::create(tmp)`, `FileWriter { clean_tmp: true }` constructed — no `await` in between, hence no point at which the request future can be dropped: the file never exists without the guard whose `Drop` removes it. (Before, `tokio::fs::File::create(tmp).await` ran on the blocking pool and the `FileWriter` was constructed only after the await returned — a separate step `adopt`; a future dropped in between left the file: `tmp-leftover:drop-at-create`.) |
 | `frame f`   | `copy_bytes`: one item of the body stream; `Err` ends the call; `Ok` is appended          |
 | `part p`    | `complete_multipart_upload`, after the validation: open the part file (missing → error), `tokio::io::copy` into the temporary file |
 | `flush`     | `writer.flush()`                                                                       |
